@@ -260,6 +260,7 @@ class Inliner:
                                if not (isinstance(st, ast.Expr) and isinstance(st.value, ast.Constant) and isinstance(st.value.value, str))]
                 one_liner = len(callee_body) == 1 and isinstance(callee_body[0], ast.Return)   # expanded in place later
             if first is not None and not one_liner \
+                    and self._callee(first)[0].split(".")[-1] in getattr(self, "fresh_helpers", ()) \
                     and all(_simple(a) for a in list(first.args) + [k.value for k in first.keywords]):
                 self._if_counter = getattr(self, "_if_counter", 0) + 1
                 name = f"{self._callee(first)[0].split('.')[-1].lstrip('_')}__value{self._if_counter}"
@@ -361,6 +362,15 @@ def inline_function(repo, rel: str, qual: str, func: ast.FunctionDef, depth: int
         of func that the reference tree did not have (extractions) and that are inlined even without `only` """
     inliner = Inliner(repo, rel, qual, depth, only)
     inliner.fresh_nested = set(fresh_nested or ())
+    # helpers the reference tree did not have: only those are pulled out of `if` tests (the rules name the others)
+    try:
+        from .report import _reference_helpers
+        known = set(_reference_helpers().get(rel, []))
+    except Exception:  # pylint: disable=broad-except
+        known = set()
+    inliner.fresh_helpers = {q.split(".")[-1] for q, _ in repo.functions(rel)
+                             if q.split(".")[-1].startswith("_") and not q.split(".")[-1].startswith("__") and q not in known} \
+        | inliner.fresh_nested
     new = clone(func)
     names = _stored_names(new) | {n.id for n in ast.walk(new) if isinstance(n, ast.Name)}
     # nested function definitions keep their own bodies but are searched too (closures such as build_candidates)
